@@ -182,17 +182,21 @@ func aggWait(c *drv.Ctx, o *drv.Op) drv.Obs {
 // ---------------------------------------------------------------------------------------------
 
 type capSender struct {
-	mu  sync.Mutex
-	tgs [][]byte
+	mu   sync.Mutex
+	tgs  [][]byte
+	refs [][]byte
 }
 
 func (s *capSender) Run(_ context.Context) {}
 func (s *capSender) Send(tg []byte) {
-	// the serialized group is handed over by reference and the WAL code keeps using the buffer: copy
+	// tgs: a copy taken at the hand-over (what a replica that keeps up receives).
+	// refs: like replication.Sender the group is queued BY REFERENCE and read only when it is delivered, which may be after
+	// the master has written its primary files and flushed further groups (a lagging replica, repl_sync {"refs":true}).
 	b := make([]byte, len(tg))
 	copy(b, tg)
 	s.mu.Lock()
 	s.tgs = append(s.tgs, b)
+	s.refs = append(s.refs, tg)
 	s.mu.Unlock()
 }
 
@@ -329,8 +333,18 @@ func replGroup(c *drv.Ctx, o *drv.Op) drv.Obs {
 }
 
 func replSync(c *drv.Ctx, o *drv.Op) drv.Obs {
+	var sa struct {
+		Refs bool `json:"refs"`
+	}
+	if len(o.X) > 0 {
+		_ = json.Unmarshal(o.X, &sa)
+	}
 	sender.mu.Lock()
-	tgs := append([][]byte{}, sender.tgs[sent:]...)
+	src := sender.tgs
+	if sa.Refs {
+		src = sender.refs
+	}
+	tgs := append([][]byte{}, src[sent:]...)
 	sent = len(sender.tgs)
 	sender.mu.Unlock()
 	shapes := []interface{}{}
